@@ -603,6 +603,15 @@ func (u *U) Bin(op token.Token, a, b *E, typ types.Type) *E {
 	if b.Op == "ite" && a.IsConst() {
 		return u.ITE(b.B, u.Bin(op, a, b.Args[0], typ), u.Bin(op, a, b.Args[1], typ))
 	}
+	// a & ^b is a &^ b
+	if op == token.AND {
+		if b.Op == "un" && b.Aux == "^" {
+			return u.Bin(token.AND_NOT, a, b.Args[0], typ)
+		}
+		if a.Op == "un" && a.Aux == "^" {
+			return u.Bin(token.AND_NOT, b, a.Args[0], typ)
+		}
+	}
 	// identities
 	if bv, ok := b.IntVal(); ok && bv == 0 && (op == token.ADD || op == token.SUB || op == token.OR || op == token.XOR || op == token.SHL || op == token.SHR) {
 		return a
@@ -761,6 +770,8 @@ func (u *U) rebuild(x *E, args []*E) *E {
 		if tok, ok := binTokens[x.Aux]; ok {
 			return u.Bin(tok, args[0], args[1], x.Typ)
 		}
+	case "un":
+		return u.Un(x.Aux, args[0], x.Typ)
 	case "convert":
 		if args[0].IsConst() {
 			if v, ok := convertConst(args[0].Const, x.Typ); ok {
@@ -1428,4 +1439,26 @@ func (u *U) Index(x, i *E, typ types.Type) *E {
 		}
 	}
 	return u.mk("index", "", typ, x, i)
+}
+
+// Un builds a unary arithmetic operation (-x, ^x) with constant folding.
+func (u *U) Un(op string, x *E, typ types.Type) *E {
+	if x.Op == "ite" {
+		return u.ITE(x.B, u.Un(op, x.Args[0], typ), u.Un(op, x.Args[1], typ))
+	}
+	if v, ok := x.IntVal(); ok && x.IsConst() && typ != nil {
+		if bt, isB := typ.Underlying().(*types.Basic); isB && bt.Info()&types.IsInteger != 0 {
+			var r constant.Value
+			switch op {
+			case "^":
+				r = constant.MakeInt64(^v)
+			case "-":
+				r = constant.MakeInt64(-v)
+			}
+			if r != nil {
+				return u.ConstVal(wrapInt(r, bt), typ)
+			}
+		}
+	}
+	return u.mk("un", op, typ, x)
 }
